@@ -43,7 +43,7 @@ def gen_script(rng, tier):
     lines += [f'fit {m}' for m in fits]
     kind = rng.choice(KINDS)
     n_funcs = rng.randint(1, 3)
-    kw = dict(kind=kind, n_funcs=n_funcs, shared=rng.random() < 0.4, n_points=rng.randint(1, 4))
+    kw = dict(kind=kind, n_funcs=n_funcs, shared=rng.random() < 0.4, n_points=rng.randint(1, 4), vary_points=rng.random() < 0.5)
     if kind == 'bundle':
         n_theta = rng.randint(0, 3)
         idx = rng.sample(range(n_theta), rng.randint(0, n_theta)) if n_theta else []
